@@ -119,8 +119,11 @@ func TestC08Reading(t *testing.T) {
 				}
 				// the 193-byte detection window spans two packets: those may be lost, nothing else, and the reader must
 				// stay in sync afterwards (no error on a well-formed stream)
-				if len(ge) > 0 {
-					t.Fatalf("%s: errors on a well-formed stream: %v\nstream: %s", c, ge, m.describe())
+				for _, e := range ge {
+					// data-level errors are expected when the lost packets leave a unit fragment behind
+					if len(e) > 11 && e[:11] == "NextPacket:" {
+						t.Fatalf("%s: packet-level error on a well-formed stream: %v\nstream: %s", c, e, m.describe())
+					}
 				}
 				if len(gp) > len(refP) || len(gp) < len(refP)-2 || !equalStrings(gp, refP[len(refP)-len(gp):]) {
 					t.Fatalf("%s: the packets returned are not the stream's packets minus the (at most two) packets of the detection window (%d returned, stream has %d)\nstream: %s", c, len(gp), len(refP), m.describe())
